@@ -50,6 +50,17 @@ CLAIMS = {
              'every outcome is one of the other same-coloured telepods, each is possible, otherwise inert and drawing nothing.  Tie: recorded draws on '
              'random layouts (result + draw log) and the COMPLETE outcome tree of the real code (ScriptedRng DFS) vs the model leaves on small layouts.',
         design='8/C11', note=TB),
+    'C12': dict(
+        level='proof',
+        technique='Coq proof (one specification lemma per reward/termination component, composites by induction over nested lists, totality) + extracted-model differential check with symbolic reward values',
+        text='Coq theorems (Props/C12.v): for every built-in reward and termination component a closed-form specification stated independently of '
+             'the definition (exit reward/termination iff the next cell is an Exit, bump iff the attempted target is an in-grid Wall, distance '
+             'shaping by the sign of the distance change to the unique object, pick/drop and door rewards on the corresponding change, memory '
+             'reward by the beacon colour), reduce_sum = the parts in order, reduce_any/all, exit reward <-> exit termination in any composition, '
+             'totality under the documented preconditions.  Components are pure functions in the model (no Rand), i.e. deterministic. Reward '
+             'values are symbolic (which float parameter / 0.0 / parameter x distance / sum), evaluated by python itself, so comparison with the '
+             'code is exact.  Not proved: that the model BFS equals the shortest-path length (it is compared with the code and with an independent BFS).',
+        design='8/C12', note=TB),
     'C18': dict(
         level='proof',
         technique='Coq proof over unbounded Z (group laws, linear isometric action, transform group, area image, grid rotation) + regenerated tables + differential check',
